@@ -123,7 +123,9 @@ def st_idiom(draw, allow_load_q=False):
             # what the SDK emits when it moves a fresh pair to memory: the state of the communication qubit (id 0) is moved into
             # a freshly initialised qubit, both named through classical registers whose values are computed at run time
             info["sdk_mov"] = True
-            return [f"set Q9 {nq}", "qalloc Q9", "init Q9", "set R7 0", "set R8 0", f"set R9 {nq}", "add R8 R8 R9", "mov R7 R8",
+            idxs = [r[1:] for r in qregs if r[1:] not in ("1", "2", "5", "6", "9", "10")]
+            ma, mb = (f"R{idxs[0]}", f"R{idxs[1]}") if len(idxs) >= 2 and draw(st.booleans()) else ("R7", "R8")  # same indices as qubit registers in use, or not
+            return [f"set Q9 {nq}", "qalloc Q9", "init Q9", f"set {ma} 0", f"set {mb} 0", f"set R9 {nq}", f"add {mb} {mb} R9", f"mov {ma} {mb}",
                     f"set {ra} {nq}", f"{draw(st.sampled_from(GATES1))} {ra}", f"set {ra} 0", "init " + ra]
         if k == 8:
             q = draw(st.integers(0, nq - 1))
